@@ -794,7 +794,7 @@ fn edit_type_here(d: &D, s: &mut Src, cfg: &GenCfg, env_size: usize) -> D {
             3 => match index {
                 // optionality of the index value: T <-> T | undefined (Record<string, T> vs Partial<Record<string, T>>)
                 Some(ix) if s.chance(1, 2) => match &**ix {
-                    D::Union(ms) if ms.len() == 2 && ms.iter().any(|m| matches!(m, D::Undefined)) => {
+                    D::Union(ms) if ms.len() == 2 && ms.iter().any(|m| matches!(m, D::Undefined)) && ms.iter().any(|m| !matches!(m, D::Undefined)) => {
                         D::Object { props: props.clone(), index: Some(Box::new(ms.iter().find(|m| !matches!(m, D::Undefined)).unwrap().clone())) }
                     }
                     other => D::Object { props: props.clone(), index: Some(Box::new(D::Union(vec![other.clone(), D::Undefined]))) },
